@@ -135,7 +135,12 @@ impl<T: RealNumber, M: BaseMatrix<T>> QR<T, M> {
             }
         }
 
-        Ok(b)
+        if m == n {
+            Ok(b)
+        } else {
+            // the least-squares solution occupies the first n rows; the rest of the work matrix is Q^T b residue
+            Ok(b.slice(0..n, 0..b_ncols))
+        }
     }
 }
 
